@@ -210,6 +210,16 @@ func retReset(ing string) {
 
 func retPqid(p int) string { return fmt.Sprintf("vpq%d", p) }
 
+// retSpan: how long before its newest event the segment's oldest event lies (ms; a function of the key, up to 2.3
+// days, so that the order by oldest event differs from the order by newest event: every pass has to go by the newest)
+func retSpan(key, latestMs uint64) uint64 {
+	sp := (key * 2654435761) % 200000000
+	if sp > latestMs {
+		sp = latestMs
+	}
+	return sp
+}
+
 // retBuild creates the state for the segments (using s.real as the time) through the real APIs.
 func retBuild(ing string, segs []*rseg) {
 	var metas []*structs.SegMeta
@@ -221,7 +231,7 @@ func retBuild(ing string, segs []*rseg) {
 			must(os.WriteFile(s.segkey+"_1.csg", []byte("x"), 0o644))
 			retBlob[s.basedir+"a.csg"] = true
 			retBlob[s.basedir+sutils.SegmentValidityFname] = true
-			sm := &structs.SegMeta{SegmentKey: s.segkey, LatestEpochMS: s.real, EarliestEpochMS: s.real, SegbaseDir: s.basedir,
+			sm := &structs.SegMeta{SegmentKey: s.segkey, LatestEpochMS: s.real, EarliestEpochMS: s.real - retSpan(s.key, s.real), SegbaseDir: s.basedir,
 				VirtualTableName: fmt.Sprintf("rtx%d", s.org), RecordCount: 1, BytesReceivedCount: s.size, NumBlocks: 1, OrgId: s.org}
 			if len(s.pqs) > 0 {
 				// as at rotation (segstore.go): the segment's pqids go to its .sfm file (BulkAddRotatedSegmetas below),
@@ -242,7 +252,7 @@ func retBuild(ing string, segs []*rseg) {
 			must(os.MkdirAll(s.basedir, 0o755))
 			must(os.WriteFile(s.segkey+"_1.mbsu", []byte("x"), 0o644))
 			retBlob[s.basedir+"a.tso"] = true
-			mm := &structs.MetricsMeta{MSegmentDir: s.segkey, LatestEpochSec: uint32(s.real), EarliestEpochSec: uint32(s.real), BytesReceivedCount: s.size,
+			mm := &structs.MetricsMeta{MSegmentDir: s.segkey, LatestEpochSec: uint32(s.real), EarliestEpochSec: uint32(s.real - retSpan(s.key, s.real*1000)/1000), BytesReceivedCount: s.size,
 				NumBlocks: 1, TTreeDir: fmt.Sprintf("%sts/rtm%d/tth%d", ing, s.org, s.key), OrgId: s.org}
 			must(mmeta.AddMetricsMetaEntry(mm))
 			segmetadata.BulkAddMetricsSegment([]*segmetadata.MetricsSegmentMetadata{segmetadata.InitMetricsMicroIndex(mm)})
@@ -600,7 +610,46 @@ func execRetVol(f []string) Result {
 	if len(del) > 0 {
 		res.Tags = append(res.Tags, "vol-deleted-some")
 	}
+	// input class: oldest first, the pass meets a segment that does not fit into what is still to be freed while a
+	// NEWER segment would fit (the loop has to stop there: deleting the newer one would not be oldest-first)
+	if ex, ok := retVolExcess(gb, int(cnt), segs); ok && ex > 0 {
+		sorted := append([]*rseg{}, segs...)
+		sort.SliceStable(sorted, func(i, j int) bool { return sorted[i].trueMs().Cmp(sorted[j].trueMs()) < 0 })
+		rem := ex
+		for i, s := range sorted {
+			if s.size < rem {
+				rem -= s.size
+				continue
+			}
+			for _, t := range sorted[i+1:] {
+				if t.size < rem {
+					res.Tags = append(res.Tags, "vol-stops-at-oversized-old-with-smaller-newer-behind")
+					break
+				}
+			}
+			break
+		}
+	}
 	return res
+}
+
+// retVolExcess: bytes the volume pass has to free (0: it does not delete), computed from the op line for the
+// distribution tags only (org-0 log segments + all metrics segments count, as getSystemVolumeBytes does).
+func retVolExcess(gb uint64, cnt int, segs []*rseg) (uint64, bool) {
+	var system uint64
+	for _, s := range segs {
+		if s.kind == 'm' || s.org == 0 {
+			system += s.size
+		}
+	}
+	if gb > (1<<64-1)/1000000000 {
+		return 0, false
+	}
+	allowed := gb * 1000000000
+	if system <= allowed || cnt < 5 {
+		return 0, true
+	}
+	return system - allowed, true
 }
 
 // ---------------------------------------------------------------- ret int
@@ -877,7 +926,70 @@ func genRetTime(r *rand.Rand) string {
 	return fmt.Sprintf("ret time %d %d %s", now, hours, strings.Join(segs, ";"))
 }
 
+// genRetVolOversized: by construction, oldest first, a few small segments, then one that is larger than what is
+// still to be freed at that point, then smaller, newer ones (log and metrics mixed, distinct times).
+func genRetVolOversized(r *rand.Rand) string {
+	base := (uint64(1790000000000) - uint64(r.Int63n(20*86400000))) / 1000 * 1000 // whole seconds: a metrics segment's key never ties with a log segment's
+	nBefore, nAfter := r.Intn(4), 1+r.Intn(5)
+	type vs struct {
+		kind   byte
+		latest uint64
+		size   uint64
+	}
+	var l []vs
+	t := base
+	next := func() (byte, uint64) {
+		t += uint64(1000 * (1 + r.Intn(100000)))
+		if r.Intn(4) == 0 {
+			return 'm', t / 1000
+		}
+		return 'l', t + uint64(r.Intn(1000))
+	}
+	var freedBefore uint64
+	for i := 0; i < nBefore; i++ {
+		k, lt := next()
+		sz := uint64(1 + r.Int63n(400000000))
+		freedBefore += sz
+		l = append(l, vs{k, lt, sz})
+	}
+	// to free in total: what the small old ones free plus `rest`; the oversized one is ≥ rest (= rest: boundary)
+	rest := uint64(1 + r.Int63n(900000000))
+	k, lt := next()
+	big := rest + uint64(r.Int63n(3))*uint64(r.Int63n(2000000000))
+	l = append(l, vs{k, lt, big})
+	var after uint64
+	for i := 0; i < nAfter; i++ {
+		k, lt := next()
+		sz := uint64(r.Int63n(int64(rest))) // would fit
+		after += sz
+		l = append(l, vs{k, lt, sz})
+	}
+	total := freedBefore + big + after
+	// allowed = total - (freedBefore + rest) must be a whole number of GB: pad the newest segment
+	excess := freedBefore + rest
+	allowed := total - excess
+	gb := allowed / 1000000000
+	if pad := allowed - gb*1000000000; pad > 0 {
+		// shrink the allowance to whole GB by enlarging the excess is not wanted: add a newest, large survivor instead
+		k, lt := next()
+		l = append(l, vs{k, lt, 1000000000 - pad + 3000000000})
+		gb += 4
+	}
+	// file order is not age order: shuffle (metricmeta.json is a map anyway)
+	idx := r.Perm(len(l))
+	var segs []string
+	key := uint64(1 + r.Intn(5))
+	for _, i := range idx {
+		segs = append(segs, retFmtSeg(key, l[i].kind, l[i].latest, l[i].size, 0, retGenPqs(r)))
+		key += uint64(1 + r.Intn(3))
+	}
+	return fmt.Sprintf("ret vol %d %d %s", gb, 5+r.Intn(3), strings.Join(segs, ";"))
+}
+
 func genRetVol(r *rand.Rand) string {
+	if r.Intn(4) == 0 {
+		return genRetVolOversized(r)
+	}
 	nseg := 1 + r.Intn(14)
 	allowTies := nseg <= 12
 	logsOnly := r.Intn(3) == 0
